@@ -194,6 +194,29 @@ def _impl(tier, seed, search):
             if not same(X, vals): L.fail('ctor-list-of-objects', f'{c}([objects]) does not hold the element values', dict(cls=c))
         except Exception as e:
             L.fail('ctor-list-of-objects', f'{c}([objects]) raised {type(e).__name__}', dict(cls=c))
+        # the copy constructor gives an independent object (any length): list operations on one do not show in the other
+        for ln in (0, 1, 2, 3):
+            L.count('clone')
+            try:
+                X0, ref0 = build(c, ln); Y0 = cls(X0)
+                e_ = cls(np.array(one(), float))
+                Y0.append(e_); Y0.reverse()
+                if not same(X0, ref0): L.fail('clone-shares-list', f'{c}(x) shares its list with x (len {ln}): appending to the copy changed the original', dict(cls=c, length=ln))
+                X1, ref1 = build(c, ln); Y1 = cls(X1); X1.clear()
+                if len(Y1) != ln: L.fail('clone-shares-list', f'{c}(x) shares its list with x (len {ln}): clearing the original emptied the copy', dict(cls=c, length=ln))
+            except Exception as e:
+                if ln > 0: L.fail('clone-raises', f'{c}(x) for len(x) = {ln} raised {type(e).__name__}', dict(cls=c, length=ln))
+        # a list of objects with one item of another class — also one whose values have the same shape — is rejected
+        SAMESHAPE = dict(SO3=['SE2'], SE2=['SO3'], Quaternion=['UnitQuaternion'], UnitQuaternion=['Quaternion'], SO2=[], SE3=[], Twist2=[], Twist3=[])
+        for oc_name in SAMESHAPE.get(c, []) + ([other(c)] if c != 'UnitQuaternion' else ['Twist3']):      # UnitQuaternion([SO3, …]) is a documented conversion
+            oc, oone = CL[oc_name]
+            for pos in (0, 1, 2):
+                items = [cls(np.array(one(), float)) for _ in range(3)]; items[pos] = oc(np.array(oone(), float))
+                L.count('ctor-foreign-item')
+                try:
+                    Z = cls(items)
+                    L.fail(f'ctor-list-foreign-item:{c}', f'{c}([…]) accepted a list whose item {pos} is a {oc_name}', dict(cls=c, foreign=oc_name, position=pos))
+                except Exception: pass
         try:
             E = cls.Empty()
             if len(E) != 0: L.fail('Empty', f'{c}.Empty() has length {len(E)}', dict(cls=c))
